@@ -19,7 +19,7 @@ static PANICS: AtomicU64 = AtomicU64::new(0);
 pub struct Case { seed: u64, kinds: Vec<u8> }
 pub struct P;
 
-const NKINDS: u8 = 27;
+const NKINDS: u8 = 35;
 
 struct Live { rt: tokio::runtime::Runtime, port: u16, _server: Arc<RwLock<Server>> }
 
@@ -216,7 +216,32 @@ fn request(kind: u8, r: &mut Rng, h: RequestHeader, subs: &[u32]) -> SupportedMe
                   timestamps_to_return: TimestampsToReturn::Both, release_continuation_points: r.chance(1, 2), nodes_to_read: if some(r) { Some((0..=n).map(|_| HistoryReadValueId { node_id: node(r), index_range: range(r), data_encoding: QualifiedName::null(), continuation_point: ByteString::null() }).collect()) } else { None } }.into(),
         24 => HistoryUpdateRequest { request_header: h, history_update_details: if some(r) { Some((0..=n).map(|_| if r.chance(1, 2) { ExtensionObject::null() } else { operand(r) }).collect()) } else { None } }.into(),
         25 => TransferSubscriptionsRequest { request_header: h, subscription_ids: if some(r) { Some((0..=n).map(|_| sub_id(r, subs)).collect()) } else { None }, send_initial_values: r.chance(1, 2) }.into(),
-        _ => CancelRequest { request_header: h, request_handle: r.below(10) as u32 }.into(),
+        26 => CancelRequest { request_header: h, request_handle: r.below(10) as u32 }.into(),
+        27 => GetEndpointsRequest { request_header: h, endpoint_url: UAString::from(*r.pick(&["", "opc.tcp://127.0.0.1:4855/", "x", "opc.tcp://h:1/é"])), locale_ids: if r.chance(1, 2) { None } else { Some(vec![UAString::from("en"), UAString::null()]) },
+                  profile_uris: if r.chance(1, 2) { None } else { Some(vec![UAString::from("http://opcfoundation.org/UA-Profile/Transport/uatcp-uasc-uabinary"), UAString::from("x")]) } }.into(),
+        28 => FindServersRequest { request_header: h, endpoint_url: UAString::from(*r.pick(&["", "opc.tcp://127.0.0.1:4855/", "::"])), locale_ids: None, server_uris: if r.chance(1, 2) { None } else { Some(vec![UAString::from("urn:verif"), UAString::null()]) } }.into(),
+        29 => CreateSessionRequest { request_header: h, client_description: ApplicationDescription { application_uri: UAString::from("urn:c"), product_uri: UAString::null(), application_name: LocalizedText::from("c"),
+                  application_type: ApplicationType::Client, gateway_server_uri: UAString::null(), discovery_profile_uri: UAString::null(), discovery_urls: None },
+                  server_uri: UAString::null(), endpoint_url: UAString::from(*r.pick(&["opc.tcp://127.0.0.1:4855/", "", "opc.tcp://other:1/"])), session_name: UAString::from("s"),
+                  client_nonce: ByteString::from(r.bytes(32)), client_certificate: if r.chance(1, 2) { ByteString::null() } else { ByteString::from(r.bytes(40)) },
+                  requested_session_timeout: *r.pick(&[0.0, 1000.0, -1.0, f64::NAN, 1e300]), max_response_message_size: *r.pick(&[0u32, 1, 65536]) }.into(),
+        30 => ActivateSessionRequest { request_header: h, client_signature: SignatureData { algorithm: UAString::null(), signature: if r.chance(1, 2) { ByteString::null() } else { ByteString::from(r.bytes(8)) } },
+                  client_software_certificates: None, locale_ids: if r.chance(1, 2) { None } else { Some(vec![UAString::from("en")]) },
+                  user_identity_token: match r.below(4) {
+                      0 => ExtensionObject::null(),
+                      1 => eo(ObjectId::AnonymousIdentityToken_Encoding_DefaultBinary, &AnonymousIdentityToken { policy_id: UAString::from(*r.pick(&["anonymous", "x", ""])) }),
+                      2 => eo(ObjectId::UserNameIdentityToken_Encoding_DefaultBinary, &UserNameIdentityToken { policy_id: UAString::from(*r.pick(&["userpass_none", "x"])), user_name: UAString::from("u"),
+                              password: ByteString::from(r.bytes(5)), encryption_algorithm: if r.chance(1, 2) { UAString::null() } else { UAString::from("http://www.w3.org/2001/04/xmlenc#rsa-oaep") } }),
+                      _ => eo(ObjectId::X509IdentityToken_Encoding_DefaultBinary, &X509IdentityToken { policy_id: UAString::from("x509"), certificate_data: ByteString::from(r.bytes(20)) }),
+                  },
+                  user_token_signature: SignatureData { algorithm: UAString::null(), signature: ByteString::null() } }.into(),
+        31 => QueryFirstRequest { request_header: h, view: ViewDescription { view_id: NodeId::null(), timestamp: DateTime::null(), view_version: 0 },
+                  node_types: if r.chance(1, 2) { None } else { Some(vec![NodeTypeDescription { type_definition_node: enode(r), include_sub_types: true, data_to_return: None }]) },
+                  filter: ContentFilter { elements: None }, max_data_sets_to_return: 0, max_references_to_return: 0 }.into(),
+        32 => QueryNextRequest { request_header: h, release_continuation_point: r.chance(1, 2), continuation_point: ByteString::from(r.bytes(4)) }.into(),
+        33 => RegisterServerRequest { request_header: h, server: RegisteredServer { server_uri: UAString::from("urn:r"), product_uri: UAString::null(), server_names: if r.chance(1, 2) { None } else { Some(vec![LocalizedText::from("n")]) },
+                  server_type: ApplicationType::Server, gateway_server_uri: UAString::null(), discovery_urls: if r.chance(1, 2) { None } else { Some(vec![UAString::from("opc.tcp://x:1")]) }, semaphore_file_path: UAString::null(), is_online: r.chance(1, 2) } }.into(),
+        _ => CloseSessionRequest { request_header: h, delete_subscriptions: r.chance(1, 2) }.into(),
     }
 }
 
